@@ -85,27 +85,33 @@ Variable L : list str.
 Lemma fp_long_long w : fp_long lp mw w = long_word lp mw w.
 Proof. unfold fp_long, long_word. destruct (mw <? lp) eqn:E; [apply Nat.ltb_lt in E; lia | reflexivity]. Qed.
 
-(* the state of the loop: the current line `cur`, `space`, the pending field width *)
-Definition wrap_inv (cur : str) (space : Z) (width : nat) : Prop :=
-  has_long L cur = true \/
-  ((0 <= space)%Z /\ (Z.of_nat (length cur) + Z.of_nat (Nat.max width 1) - 1 + space <= Z.of_nat mw)%Z).
+(* the state of the loop: the current line `cur`, `space`, the pending field width.
+   Either an unbreakable word has been placed on the current line: then space is negative (so that only
+   further unbreakable words can follow on this line) and the line is an admissible beginning followed by
+   unbreakable words; or no such word has been placed: then the line still keeps to max_width with `space` to spare *)
+Definition wrap_inv (base : str -> bool) (cur : str) (space : Z) (width : nat) : Prop :=
+  (wide_line base L cur /\ (space < 0)%Z /\ width = 0) \/
+  ((forall l, fits mw l = true -> base l = true) /\
+   (0 <= space <= Z.of_nat mw - Z.of_nat lp)%Z /\
+   (Z.of_nat (length cur) + Z.of_nat (Nat.max width 1) - 1 + space <= Z.of_nat mw)%Z).
 
-Lemma wrap_inv_line_ok cur space width : wrap_inv cur space width -> line_ok mw L cur = true.
+Lemma wrap_inv_done base cur space width : wrap_inv base cur space width -> wide_line base L cur.
 Proof.
-  unfold wrap_inv, line_ok. intros [H|[H1 H2]]; apply orb_true_iff; [now right | left].
-  apply Nat.leb_le. lia.
+  intros [[H _]|(HB & H1 & H2)]; [exact H|]. apply wide_line_base, HB. unfold fits. apply Nat.leb_le. lia.
 Qed.
 
-Lemma fp_words_lines ws : forall cur space width,
+Lemma fp_words_lines ws : forall base cur space width,
   no_nl cur = true -> Forall (fun w => no_nl w = true) ws ->
   (forall w, In w ws -> long_word lp mw (detab_spec w) = true -> In (detab_spec w) L) ->
-  wrap_inv cur space width ->
-  exists ls, cur ++ fp_words lp mw ws space width = intercalate [nl] ls /\ ls <> [] /\ (exists t, hd [] ls = cur ++ t) /\
-             Forall (fun l => no_nl l = true) ls /\ Forall (fun l => line_ok mw L l = true) ls.
+  wrap_inv base cur space width ->
+  exists l1 rest, cur ++ fp_words lp mw ws space width = intercalate [nl] (l1 :: rest) /\
+             (exists t, l1 = cur ++ t) /\
+             Forall (fun l => no_nl l = true) (l1 :: rest) /\
+             wide_line base L l1 /\ Forall (wide_line (fits mw) L) rest.
 Proof.
-  induction ws as [|w0 ws IH]; intros cur space width Hcur Hws HL Hinv.
-  - exists [cur]. simpl. rewrite app_nil_r. repeat split; [discriminate | exists []; now rewrite app_nil_r | repeat constructor; assumption|].
-    repeat constructor. eapply wrap_inv_line_ok; eauto.
+  induction ws as [|w0 ws IH]; intros base cur space width Hcur Hws HL Hinv.
+  - exists cur, []. simpl. rewrite app_nil_r. repeat split; [exists []; now rewrite app_nil_r | repeat constructor; assumption | | constructor].
+    eapply wrap_inv_done; eauto.
   - inversion Hws as [|? ? Hw0 Hws']; subst.
     assert (HL' : forall w, In w ws -> long_word lp mw (detab_spec w) = true -> In (detab_spec w) L)
       by (intros w Hw; apply HL; now right).
@@ -113,33 +119,42 @@ Proof.
     set (w := detab_spec w0). set (n := Z.of_nat (length w + 1)).
     assert (Hw : no_nl w = true) by (unfold w; now rewrite no_nl_detab).
     destruct (long_word lp mw w) eqn:Elong; [|destruct (n <=? space)%Z eqn:Efit]; cbn [orb].
-    + (* an unbreakable word stays on the current line *)
-      destruct (IH (cur ++ setw_blank width ++ w) (space - n)%Z 0) as (ls & H1 & Hne & H2 & H3 & H4); auto.
+    + (* an unbreakable word stays on the current line, and from now on space is negative *)
+      assert (HwL : In w L) by (apply HL; [now left | exact Elong]).
+      pose proof Elong as Elong'. unfold long_word in Elong'. apply Nat.ltb_lt in Elong'.
+      destruct (IH base (cur ++ setw_blank width ++ w) (space - n)%Z 0) as (l1 & rest & H1 & [t Ht] & H3 & H4 & H5); auto.
       * now rewrite !no_nl_app, Hcur, setw_blank_blanks, no_nl_blanks, Hw.
-      * left. unfold has_long. apply existsb_exists. exists w. split; [apply HL; [now left | exact Elong]|].
-        apply contains_end.
-      * exists ls. rewrite <- H1, <- !app_assoc. repeat split; auto.
-        destruct H2 as [t Ht]. exists (setw_blank width ++ w ++ t). now rewrite Ht, <- !app_assoc.
-    + (* the word fits *)
+      * left. split; [|split; [|reflexivity]].
+        -- destruct Hinv as [(Hwl & Hs & ->)|(HB & Hs & Hb)].
+           ++ change (setw_blank 0 ++ w) with (sp :: w). now apply wide_line_step.
+           ++ rewrite setw_blank_blanks. unfold blanks.
+              replace (repeat sp (Nat.max width 1)) with (repeat sp (Nat.max width 1 - 1) ++ [sp]).
+              2:{ destruct (Nat.max width 1) eqn:Em; [lia|]. simpl. rewrite Nat.sub_0_r. symmetry. apply repeat_cons. }
+              rewrite <- app_assoc, app_assoc. change ([sp] ++ w) with (sp :: w).
+              apply wide_line_step; [|exact HwL]. apply wide_line_base, HB. unfold fits. apply Nat.leb_le.
+              rewrite app_length, repeat_length. lia.
+        -- destruct Hinv as [(_ & Hs & _)|(_ & Hs & _)]; unfold n; lia.
+      * exists l1, rest. rewrite <- H1, <- !app_assoc. repeat split; auto.
+        exists (setw_blank width ++ w ++ t). now rewrite Ht, <- !app_assoc.
+    + (* the word fits: no unbreakable word can be on the line *)
       apply Z.leb_le in Efit.
-      destruct (IH (cur ++ setw_blank width ++ w) (space - n)%Z 0) as (ls & H1 & Hne & H2 & H3 & H4); auto.
+      destruct Hinv as [(_ & Hs & _)|(HB & Hs & Hb)]; [unfold n in Efit; lia|].
+      destruct (IH base (cur ++ setw_blank width ++ w) (space - n)%Z 0) as (l1 & rest & H1 & [t Ht] & H3 & H4 & H5); auto.
       * now rewrite !no_nl_app, Hcur, setw_blank_blanks, no_nl_blanks, Hw.
-      * destruct Hinv as [Hl|[Hs Hb]]; [left; now apply has_long_app_r|right].
-        rewrite !app_length, setw_blank_blanks. unfold blanks. rewrite repeat_length. unfold n in *. lia.
-      * exists ls. rewrite <- H1, <- !app_assoc. repeat split; auto.
-        destruct H2 as [t Ht]. exists (setw_blank width ++ w ++ t). now rewrite Ht, <- !app_assoc.
+      * right. split; [exact HB|]. rewrite !app_length, setw_blank_blanks. unfold blanks. rewrite repeat_length. unfold n in *. lia.
+      * exists l1, rest. rewrite <- H1, <- !app_assoc. repeat split; auto.
+        exists (setw_blank width ++ w ++ t). now rewrite Ht, <- !app_assoc.
     + (* line break *)
       apply Z.leb_gt in Efit. unfold long_word in Elong. apply Nat.ltb_ge in Elong.
-      destruct (IH (setw_blank lp ++ w) (Z.of_nat mw - Z.of_nat lp - n)%Z 0) as (ls & H1 & Hne & H2 & H3 & H4); auto.
+      destruct (IH (fits mw) (setw_blank lp ++ w) (Z.of_nat mw - Z.of_nat lp - n)%Z 0) as (l1 & rest & H1 & [t Ht] & H3 & H4 & H5); auto.
       * now rewrite !no_nl_app, setw_blank_blanks, no_nl_blanks, Hw.
-      * right. rewrite !app_length, setw_blank_blanks. unfold blanks. rewrite repeat_length. unfold n in *. lia.
-      * exists (cur :: ls). destruct ls as [|l1 ls]; [congruence|].
-        repeat split.
+      * right. split; [auto|]. rewrite !app_length, setw_blank_blanks. unfold blanks. rewrite repeat_length. unfold n in *. lia.
+      * exists cur, (l1 :: rest). repeat split.
         -- rewrite intercalate_cons, <- H1, <- !app_assoc. reflexivity.
-        -- discriminate.
-        -- exists []. simpl. now rewrite app_nil_r.
+        -- exists []. now rewrite app_nil_r.
         -- constructor; assumption.
-        -- constructor; [eapply wrap_inv_line_ok; eauto | assumption].
+        -- eapply wrap_inv_done; eauto.
+        -- constructor; assumption.
 Qed.
 
 End Width.
@@ -156,29 +171,34 @@ Lemma long_words_of_in lp mw text w :
   In w (words text) -> long_word lp mw (detab_spec w) = true -> In (detab_spec w) (long_words_of lp mw text).
 Proof. intros H1 H2. unfold long_words_of. apply filter_In. split; [now apply in_map | exact H2]. Qed.
 
-(* the stream's current line is `pre` (so tellp() = |pre|), not wider than the left column *)
-Theorem format_padded_width_narrow pre text lp mw :
+Lemma long_words_of_long lp mw text w : In w (long_words_of lp mw text) -> long_word lp mw w = true.
+Proof. unfold long_words_of. intros H. now apply filter_In in H. Qed.
+
+(* the stream's current line is `pre` (so tellp() = |pre|), not wider than the left column: every line is a
+   beginning that keeps to max_width, followed by nothing but unbreakable words *)
+Theorem format_padded_width_narrow_strict pre text lp mw :
   no_nl pre = true -> no_nl text = true -> length pre <= lp -> lp < mw ->
-  Forall (fun l => line_ok mw (long_words_of lp mw text) l = true)
+  Forall (wide_line (fits mw) (long_words_of lp mw text))
          (lines (pre ++ format_padded (Z.of_nat (length pre)) text lp mw)).
 Proof.
   intros Hpre Htext Hle Hlp. unfold format_padded. rewrite split_blank_words.
   replace (Z.of_nat (length pre) <=? Z.of_nat lp)%Z with true by (symmetry; apply Z.leb_le; lia).
-  destruct (fp_words_lines lp mw Hlp (long_words_of lp mw text) (words text) pre
+  destruct (fp_words_lines lp mw Hlp (long_words_of lp mw text) (words text) (fits mw) pre
               (Z.of_nat mw - Z.of_nat lp)%Z (Z.to_nat (Z.of_nat lp - Z.of_nat (length pre))))
-    as (ls & H1 & Hne & [t Ht] & H3 & H4); auto.
+    as (l1 & rest & H1 & _ & H3 & H4 & H5); auto.
   - now apply words_no_nl.
   - intros w. apply long_words_of_in.
-  - right. lia.
-  - rewrite H1, lines_intercalate; [exact H4 | exact Hne | exact H3].
+  - right. split; [auto|]. lia.
+  - rewrite H1, lines_intercalate; [now constructor | discriminate | exact H3].
 Qed.
 
-(* the current line is already wider than the left column: it stays alone, unless an unbreakable word follows *)
-Theorem format_padded_width_wide pre text lp mw :
+(* the current line is already wider than the left column: the first line is that column, followed by nothing
+   but unbreakable words (none, when the first word of the text can be broken off) *)
+Theorem format_padded_width_wide_strict pre text lp mw :
   no_nl pre = true -> no_nl text = true -> lp < length pre -> lp < mw ->
   exists first rest, lines (pre ++ format_padded (Z.of_nat (length pre)) text lp mw) = first :: rest /\
-    (first = pre \/ has_long (long_words_of lp mw text) first = true) /\
-    Forall (fun l => line_ok mw (long_words_of lp mw text) l = true) rest.
+    wide_line (fun b => seq_eqb b pre) (long_words_of lp mw text) first /\
+    Forall (wide_line (fits mw) (long_words_of lp mw text)) rest.
 Proof.
   intros Hpre Htext Hgt Hlp. unfold format_padded. rewrite split_blank_words.
   replace (Z.of_nat (length pre) <=? Z.of_nat lp)%Z with false by (symmetry; apply Z.leb_gt; lia).
@@ -192,44 +212,68 @@ Proof.
   assert (Hw : no_nl w = true) by (unfold w; now rewrite no_nl_detab).
   assert (HL' : forall x, In x ws -> long_word lp mw (detab_spec x) = true -> In (detab_spec x) L)
     by (intros x Hx; apply HL; now right).
+  assert (Hbase : wide_line (fun b => seq_eqb b pre) L pre) by (apply wide_line_base, seq_eqb_refl).
   destruct (long_word lp mw w) eqn:Elong; cbn [orb].
-  - assert (Hlong : has_long L (pre ++ setw_blank 0 ++ w) = true).
-    { unfold has_long. apply existsb_exists. exists w. split; [apply HL; [now left | exact Elong]|].
-      apply contains_end. }
-    destruct (fp_words_lines lp mw Hlp L ws (pre ++ setw_blank 0 ++ w) (0 - n)%Z 0) as (ls & H1 & Hne & [t Ht] & H3 & H4); auto.
+  - assert (HwL : In w L) by (apply HL; [now left | exact Elong]).
+    destruct (fp_words_lines lp mw Hlp L ws (fun b => seq_eqb b pre) (pre ++ setw_blank 0 ++ w) (0 - n)%Z 0)
+      as (l1 & rest & H1 & _ & H3 & H4 & H5); auto.
     + now rewrite !no_nl_app, Hpre, Hw.
-    + now left.
-    + destruct ls as [|l1 ls]; [congruence|]. exists l1, ls.
-      rewrite <- !app_assoc in H1. rewrite H1, lines_intercalate by (congruence || assumption).
-      inversion H4; subst. repeat split; auto.
-      right. simpl in Ht. rewrite Ht. now apply has_long_app_r.
+    + left. split; [|split; [unfold n; lia | reflexivity]].
+      change (setw_blank 0 ++ w) with (sp :: w). now apply wide_line_step.
+    + exists l1, rest. rewrite <- !app_assoc in H1. rewrite H1, lines_intercalate by (discriminate || assumption). auto.
   - replace (n <=? 0)%Z with false by (symmetry; apply Z.leb_gt; unfold n; lia).
     unfold long_word in Elong. apply Nat.ltb_ge in Elong.
-    destruct (fp_words_lines lp mw Hlp L ws (setw_blank lp ++ w) (Z.of_nat mw - Z.of_nat lp - n)%Z 0) as (ls & H1 & Hne & [t Ht] & H3 & H4); auto.
+    destruct (fp_words_lines lp mw Hlp L ws (fits mw) (setw_blank lp ++ w) (Z.of_nat mw - Z.of_nat lp - n)%Z 0)
+      as (l1 & rest & H1 & _ & H3 & H4 & H5); auto.
     + now rewrite !no_nl_app, setw_blank_blanks, no_nl_blanks, Hw.
-    + right. rewrite !app_length, setw_blank_blanks. unfold blanks. rewrite repeat_length. unfold n in *. lia.
-    + exists pre, ls. repeat split; auto.
+    + right. split; [auto|]. rewrite !app_length, setw_blank_blanks. unfold blanks. rewrite repeat_length. unfold n in *. lia.
+    + exists pre, (l1 :: rest). split; [|split; [exact Hbase | constructor; assumption]].
       assert (E : pre ++ nl :: setw_blank lp ++ w ++ fp_words lp mw ws (Z.of_nat mw - Z.of_nat lp - n)%Z 0
-                  = intercalate [nl] (pre :: ls)).
-      { destruct ls as [|l1 ls]; [congruence|].
-        rewrite intercalate_cons, <- H1, <- !app_assoc. reflexivity. }
+                  = intercalate [nl] (pre :: l1 :: rest)).
+      { rewrite intercalate_cons, <- H1, <- !app_assoc. reflexivity. }
       rewrite E. apply lines_intercalate; [discriminate | constructor; assumption].
 Qed.
 
-(* both cases, as the boolean check the oracle evaluates *)
+(* the weak forms (a line keeps to max_width or contains an unbreakable word) follow *)
+Theorem format_padded_width_narrow pre text lp mw :
+  no_nl pre = true -> no_nl text = true -> length pre <= lp -> lp < mw ->
+  Forall (fun l => line_ok mw (long_words_of lp mw text) l = true)
+         (lines (pre ++ format_padded (Z.of_nat (length pre)) text lp mw)).
+Proof.
+  intros H1 H2 H3 H4. eapply Forall_impl; [|apply format_padded_width_narrow_strict; assumption].
+  intros l. apply wide_line_line_ok.
+Qed.
+
+Theorem format_padded_width_wide pre text lp mw :
+  no_nl pre = true -> no_nl text = true -> lp < length pre -> lp < mw ->
+  exists first rest, lines (pre ++ format_padded (Z.of_nat (length pre)) text lp mw) = first :: rest /\
+    (first = pre \/ has_long (long_words_of lp mw text) first = true) /\
+    Forall (fun l => line_ok mw (long_words_of lp mw text) l = true) rest.
+Proof.
+  intros H1 H2 H3 H4. destruct (format_padded_width_wide_strict pre text lp mw H1 H2 H3 H4) as (first & rest & E & Hf & Hr).
+  exists first, rest. repeat split; [exact E | now apply wide_line_pre_or_long in Hf|].
+  eapply Forall_impl; [|exact Hr]. intros l. apply wide_line_line_ok.
+Qed.
+
+(* both cases, as the boolean check the oracle evaluates (strict rule) *)
 Theorem format_padded_check_width pre text lp mw :
   check_fp_width pre text lp mw (format_padded (Z.of_nat (length pre)) text lp mw) = true.
 Proof.
   unfold check_fp_width.
   destruct (no_nl pre) eqn:Hpre; [|reflexivity]. destruct (no_nl text) eqn:Htext; [|reflexivity].
   destruct (lp <? mw) eqn:Hlp; [|reflexivity]. apply Nat.ltb_lt in Hlp. cbn [andb].
+  assert (Hrest : forall rest, Forall (wide_line (fits mw) (long_words_of lp mw text)) rest ->
+                  forallb (line_strict mw (long_words_of lp mw text)) rest = true).
+  { intros rest H. apply forallb_forall. intros l Hl. rewrite Forall_forall in H.
+    unfold line_strict. apply wide_line_strip; [now apply H | lia]. }
   destruct (le_lt_dec (length pre) lp) as [Hle|Hgt].
-  - pose proof (format_padded_width_narrow pre text lp mw Hpre Htext Hle Hlp) as H.
+  - pose proof (format_padded_width_narrow_strict pre text lp mw Hpre Htext Hle Hlp) as H.
     destruct (lines _) as [|first rest] eqn:E; [now apply splitp_nonnil in E|].
-    inversion H; subst. apply andb_true_iff. split; [apply orb_true_iff; now left | now apply forallb_forall, Forall_forall].
-  - destruct (format_padded_width_wide pre text lp mw Hpre Htext Hgt Hlp) as (first & rest & -> & Hf & Hr).
-    apply andb_true_iff. split; [|now apply forallb_forall, Forall_forall].
-    apply orb_true_iff. destruct Hf as [->|Hf].
-    + right. apply andb_true_iff. split; [now apply Nat.ltb_lt | apply seq_eqb_refl].
-    + left. unfold line_ok. apply orb_true_iff. now right.
+    inversion H; subst. apply andb_true_iff. split; [|now apply Hrest].
+    replace (lp <? length pre) with false by (symmetry; apply Nat.ltb_ge; lia).
+    apply wide_line_strip; [assumption | lia].
+  - destruct (format_padded_width_wide_strict pre text lp mw Hpre Htext Hgt Hlp) as (first & rest & -> & Hf & Hr).
+    apply andb_true_iff. split; [|now apply Hrest].
+    replace (lp <? length pre) with true by (symmetry; apply Nat.ltb_lt; lia).
+    apply wide_line_strip; [assumption | lia].
 Qed.
